@@ -2,7 +2,7 @@ HOOKS = {
     "guard": "PREPROCESS_VERIF",
     "enable": "cmake -S /verif/harness -B /var/tmp/verif-build/rel -DREPO_DIR=/repo (the superproject adds -DPREPROCESS_VERIF to every target of /repo and builds the harnesses in the same ninja graph)",
     "baseline_off_cmd": "cmake -G Ninja -S /repo -B /var/tmp/verif-baseline -DCOMPILE_TESTS=ON -DCMAKE_BUILD_TYPE=Release && cmake --build /var/tmp/verif-baseline -j16 && ctest --test-dir /var/tmp/verif-baseline -j8 --timeout 900",
-    "source_commits": ["2f674d0", "a374430", "a7fb66e", "9427220"],
+    "source_commits": ["2f674d0", "a374430", "a7fb66e", "9427220", "00a4181"],
     "add_only": True,
 }
 
